@@ -167,6 +167,7 @@ OPS: t.Dict[str, t.Dict[str, t.Callable[[t.Any], t.Any]]] = {
         "recv_X": lambda s: s.receive(REQ_X),
         "recv_F": lambda s: s.receive(REQ_F),
         "recv_A": lambda s: s.receive(REQ_A),
+        "recv_deep": lambda s: s.receive(DEEP_REQ),
         "recv_SD": lambda s: s.receive(REQ_SD),
         "recv_SDv": lambda s: s.receive(REQ_SDV),
         "resp_bind": lambda s: s.bind_response(1),
@@ -414,6 +415,102 @@ def generations_check(rounds: int = 120) -> t.List[t.Tuple[str, str]]:
     return out
 
 
+def _nested_filter(depth: int, leaf: t.Any) -> t.Any:
+    f = leaf
+    for i in range(depth):
+        f = L.FilterNot(f) if i % 2 else L.FilterAnd([f])
+    return f
+
+
+def noisy_neighbours() -> t.List[t.Tuple[str, t.Callable[[], None]]]:
+    """Other sessions doing a LOT, or failing in unusual ways, before / while the observed sessions run."""
+    res = lambda code: L.LDAPResult(L.LDAPResultCode(code), "", "", None)  # noqa: E731
+
+    def many_unknown_codes() -> None:
+        c = L.LDAPClient()
+        for k in range(320):
+            i = c.extended_request("1.2")
+            c.data_to_send()
+            c.receive(L.ExtendedResponse(i, [], res(5000 + 3 * k), None, None).pack(OPT))
+
+    def failing_deep_filters() -> None:
+        bad = L.SearchRequest(1, [], "", L.SearchScope.BASE, L.DereferencingPolicy.NEVER, 0, 0, False, _nested_filter(50, FFilter("zz")), []).pack(OPT)
+        for _ in range(6):
+            s = L.LDAPServer()  # FFilter not registered: decoding fails 50 levels down
+            try:
+                s.receive(bad)
+            except L.ProtocolError:
+                pass
+
+    def many_sessions_many_types() -> None:
+        for k in range(40):
+            s = L.LDAPServer()
+            for cls in ((XControl, FFilter, ACred), (YControl,), (FFilter,))[k % 3]:
+                getattr(s, {"XControl": "register_control", "YControl": "register_control", "FFilter": "register_filter", "ACred": "register_auth_credential"}[cls.__name__])(cls)
+            for wire in (REQ_X, REQ_F_OR, REQ_SD):
+                try:
+                    s.receive(wire)
+                except L.ProtocolError:
+                    break
+
+    def long_lived_busy_session() -> None:
+        c, s = L.LDAPClient(), L.LDAPServer()
+        for k in range(150):
+            i = c.search_request(filter=L.FilterEquality("uid", b"u%d" % k), attributes=["a%d" % k])
+            s.receive(c.data_to_send())
+            s.search_result_entry(i, "cn=%d" % k, [L.PartialAttribute("attr%d" % k, [b"v"])])
+            s.search_result_done(i, L.LDAPResultCode(4300 + k))
+            c.receive(s.data_to_send())
+
+    return [("320-unknown-result-codes", many_unknown_codes), ("deep-filter-failures", failing_deep_filters),
+            ("40-sessions-different-registrations", many_sessions_many_types), ("150-searches-on-one-connection", long_lived_busy_session)]
+
+
+DEEP_REQ = L.SearchRequest(7, [], "", L.SearchScope.BASE, L.DereferencingPolicy.NEVER, 0, 0, False, _nested_filter(40, L.FilterPresent("a")), []).pack(OPT)
+VICTIMS: t.Dict[str, t.List[t.Tuple[str, ...]]] = {
+    "client": [("search", "recv_done_X"), ("ext", "recv_resp1"), ("bind", "recv_code"), ("search", "recv_SD"), ("ext", "recv_half", "recv_rest")],
+    "server": [("recv_search", "resp_entry"), ("recv_X", "resp_done_X"), ("recv_deep", "recv_deep"), ("recv_bind", "resp_bind"), ("recv_SDv", "recv_half", "recv_rest"), ("recv_ext", "resp_ext")],
+}
+
+
+def neighbours_check(alone_table: t.Dict[t.Any, t.Any]) -> t.List[t.Tuple[str, str]]:
+    out: t.List[t.Tuple[str, str]] = []
+    for name, noise in noisy_neighbours():
+        noise()
+        for role, hs in VICTIMS.items():
+            for h in hs:
+                got = alone((role, h))
+                if got != alone_table[(role, h)]:
+                    k = next((i for i, (x, y) in enumerate(zip(got, alone_table[(role, h)])) if x != y), 0)
+                    out.append((f"neighbour-changed-session:{name}:{role}:{(h + ('final',))[k]}", f"after other sessions did '{name}', a fresh {role} running {h} gives {got[k]!r} at step {k}; in a pristine process it gives {alone_table[(role, h)][k]!r}"))
+    # two sessions each receiving a 70 000-octet message in pieces, round-robin
+    for ra, rb in (("client", "server"), ("server", "server"), ("client", "client")):
+        def big(role: str, tag: bytes) -> t.Tuple[t.Any, bytes]:
+            if role == "client":
+                c = L.LDAPClient()
+                c.search_request()
+                c.data_to_send()
+                return c, L.SearchResultEntry(1, [], "cn=big", [L.PartialAttribute("jpegPhoto", [tag * 70000])]).pack(OPT)
+            return L.LDAPServer(), L.ExtendedRequest(1, [], "1.2", tag * 90000).pack(OPT)
+
+        (sa, wa), (sb, wb) = big(ra, b"A"), big(rb, b"B")
+        got_a: t.List[t.Any] = []
+        got_b: t.List[t.Any] = []
+        try:
+            for p in range(0, max(len(wa), len(wb)), 16384):
+                if p < len(wa):
+                    got_a += sa.receive(wa[p : p + 16384])
+                if p < len(wb):
+                    got_b += sb.receive(wb[p : p + 16384])
+            ok = len(got_a) == 1 and len(got_b) == 1 and got_a[0].pack(OPT) == wa and got_b[0].pack(OPT) == wb
+            why = f"{len(got_a)} / {len(got_b)} messages returned"
+        except BaseException as e:  # noqa: BLE001
+            ok, why = False, f"{type(e).__name__}: {e}"
+        if not ok:
+            out.append((f"large-messages-in-pieces-interfere:{ra}/{rb}", f"two sessions receiving 70 000 / 90 000-octet messages in 16 KiB pieces, round-robin: {why}"))
+    return out
+
+
 def _configs(job: t.Tuple[int, int]) -> evid.Local:
     loc = evid.Local()
     subsets = _X["subsets"]
@@ -446,7 +543,7 @@ def run(ctx: evid.Ctx) -> None:
     base = {r: histories(r, 2) for r in OPS}
     groups = {r: [histories(r, 3, grp) for grp in FOCUS[r]] for r in OPS} if thorough else {r: [] for r in OPS}
     # alone transcripts: each from its own fork of this (so far pristine) process
-    need = {(r, h) for r in OPS for h in base[r]} | {(r, h) for r in OPS for g in groups[r] for h in g}
+    need = {(r, h) for r in OPS for h in base[r]} | {(r, h) for r in OPS for g in groups[r] for h in g} | {(r, h) for r, hs in VICTIMS.items() for h in hs}
     jobs_alone = sorted(need)
     with mp.get_context("fork").Pool(par.ncpu(), maxtasksperchild=1) as pool:
         res = pool.map(alone, jobs_alone, chunksize=1)
@@ -492,6 +589,10 @@ def run(ctx: evid.Ctx) -> None:
     for (r, h), exp in list(_X["alone"].items())[:: max(1, len(_X["alone"]) // 400)]:
         if alone((r, h)) != exp:
             ctx.violation(f"alone-transcript-changed:{r}:{h[-1]}", f"{r} history {h} no longer behaves as in a pristine process", {"roles": [r, r], "ha": list(h), "hb": [], "order": [0] * len(h)})
+    for k, w in neighbours_check(_X["alone"]):
+        ctx.violation(k, w, {"neighbours": True})
+    ctx.add("states", 4 * sum(len(v) for v in VICTIMS.values()) + 3)
+    ctx.add("transitions", 2000)
     for k, w in generations_check():
         ctx.violation(k, w, {"generations": True})
     ctx.add("states", 120)
@@ -513,6 +614,12 @@ def run(ctx: evid.Ctx) -> None:
 
 
 def replay(case: t.Dict[str, t.Any], key: t.Optional[str] = None) -> t.Tuple[bool, str]:
+    if case.get("neighbours"):
+        jobs = [(r, h) for r, hs in VICTIMS.items() for h in hs]
+        with mp.get_context("fork").Pool(4, maxtasksperchild=1) as pool:
+            table = dict(zip(jobs, pool.map(alone, jobs, chunksize=1)))
+        vs = [v for v in neighbours_check(table) if key is None or v[0] == key]
+        return (not vs), "sessions observed after / next to busy or failing neighbours" + "".join(f"\n  {k}: {w}" for k, w in vs[:5])
     if case.get("generations"):
         vs = [v for v in generations_check() if key is None or v[0] == key]
         return (not vs), "sessions created and dropped in sequence" + "".join(f"\n  {k}: {w}" for k, w in vs[:5])
